@@ -3,6 +3,9 @@
 //	cors hr=<0|1>;m=<hex method>;o=<hex origin>;a=<hex Access-Control-Request-Method>;b=<backend hdr>;r=<rules>;h=<hex Access-Control-Request-Headers>
 //	  hdr   = acao|acac|acam|acah|acma|aceh|vary   field = "_" (absent) or hex values joined by ","
 //	  rules = "_" or rule/rule/…   rule = hit:origins:creds:expose:methods:headers:maxage
+//	corsh c=<conf>~<conf>…;p=<product hex>;m=…;o=…;a=…;b=…;h=…    reload history: conf = <version hex>@<product hex>=<rules>&…
+//	     every conf is loaded into ONE module in order (hook VerifRunHistory: real ruleListConvert + CorsRuleTable.Update),
+//	     then the request for product p runs; it is judged against the last accepted conf only.
 //
 // The raw rules go through the REAL ruleListConvert (loader validation) and are installed for the request's
 // product; the REAL corsPreflightHandler runs, and when it does not answer, the REAL corsHandler runs on a
@@ -193,7 +196,108 @@ func genVary(r *vh.Rand) []string {
 	return varyPool[r.Intn(len(varyPool))]
 }
 
+var products = []string{"pa", "pb", "pc"}
+
+func encRules(rules []rule) string {
+	if len(rules) == 0 {
+		return "_"
+	}
+	var xs []string
+	for _, ru := range rules {
+		xs = append(xs, ru.enc())
+	}
+	return strings.Join(xs, "/")
+}
+
+// genHistory: 2-4 configurations for products pa/pb/pc; between them products are added, removed, or get other
+// origins; version strings stay the same or change; now and then a configuration is invalid.  The request goes to
+// a product of ANY configuration and mostly carries an origin that an EARLIER configuration allowed.
+func genHistory(r *vh.Rand) string {
+	n := r.Range(2, 4)
+	var confs []string
+	type seen struct{ product, origin string }
+	var earlier []seen
+	var lastProducts []string
+	version := "v1"
+	for i := 0; i < n; i++ {
+		if r.Chance(1, 2) {
+			version = fmt.Sprintf("v%d", r.Range(1, 3))
+		}
+		var ps []string
+		lastProducts = nil
+		for _, p := range products {
+			if !r.Chance(3, 5) {
+				continue
+			}
+			var rules []rule
+			for k := r.Range(1, 2); k > 0; k-- {
+				ru := genRule(r)
+				if i < n-1 || !r.Chance(1, 8) {
+					// keep most configurations valid
+					for len(ru.origins) == 0 || !plausiblyValid(ru) {
+						ru = genRule(r)
+					}
+				}
+				rules = append(rules, ru)
+				for _, o := range ru.origins {
+					if ru.hit && o != "*" && o != "%origin" {
+						earlier = append(earlier, seen{p, o})
+					}
+				}
+			}
+			ps = append(ps, hx(p)+"="+encRules(rules))
+			lastProducts = append(lastProducts, p)
+		}
+		body := "_"
+		if len(ps) > 0 {
+			body = strings.Join(ps, "&")
+		}
+		confs = append(confs, hx(version)+"@"+body)
+	}
+	product := products[r.Intn(len(products))]
+	origin := originPool[r.Intn(6)]
+	if len(earlier) > 0 && r.Chance(3, 4) {
+		e := earlier[r.Intn(len(earlier))]
+		product, origin = e.product, e.origin
+	}
+	if r.Chance(1, 12) {
+		origin = ""
+	}
+	method, acrm := "GET", ""
+	if r.Chance(1, 3) {
+		method, acrm = "OPTIONS", methodsPool[r.Intn(len(methodsPool))]
+	}
+	var b [7]string
+	for i := range b {
+		b[i] = "_"
+	}
+	b[6] = encList(genVary(r))
+	return fmt.Sprintf("corsh c=%s;p=%s;m=%s;o=%s;a=%s;b=%s;h=-", strings.Join(confs, "~"), hx(product), hx(method), hx(origin),
+		hx(acrm), strings.Join(b[:], "|"))
+}
+
+func hx(s string) string { return vh.Hex([]byte(s)) }
+
+// plausiblyValid mirrors the loader's origin checks loosely; only used to bias generation.
+func plausiblyValid(ru rule) bool {
+	for _, o := range ru.origins {
+		if (strings.HasPrefix(o, "%") && o != "%origin") || (strings.Contains(o, "*") && len(o) != 1) {
+			return false
+		}
+		if o == "*" && ru.creds {
+			return false
+		}
+		if (o == "null" || o == "*") && len(ru.origins) != 1 {
+			return false
+		}
+	}
+	return true
+}
+
 func gen(r *vh.Rand) string {
+	if r.Chance(1, 5) {
+		return genHistory(r)
+	}
 	hasRules := !r.Chance(1, 12)
 	var rules []rule
 	nr := r.Range(1, 3)
@@ -302,7 +406,149 @@ func kv(s, k string) (string, bool) {
 	return "", false
 }
 
+func parseRawRules(rs string) (mod_cors.RuleRawList, bool) {
+	var raw mod_cors.RuleRawList
+	if rs == "_" {
+		return raw, true
+	}
+	for _, x := range strings.Split(rs, "/") {
+		p := strings.Split(x, ":")
+		if len(p) != 7 {
+			return nil, false
+		}
+		var rr mod_cors.CorsRuleRaw
+		rr.Cond = missCond
+		if p[0] == "1" {
+			rr.Cond = hitCond
+		}
+		var ok bool
+		if rr.AccessControlAllowOrigins, ok = decList(p[1]); !ok {
+			return nil, false
+		}
+		rr.AccessControlAllowCredentials = p[2] == "1"
+		if rr.AccessControlExposeHeaders, ok = decList(p[3]); !ok {
+			return nil, false
+		}
+		if rr.AccessControlAllowMethods, ok = decList(p[4]); !ok {
+			return nil, false
+		}
+		if rr.AccessControlAllowHeaders, ok = decList(p[5]); !ok {
+			return nil, false
+		}
+		if p[6] != "n" {
+			v, err := strconv.Atoi(p[6])
+			if err != nil {
+				return nil, false
+			}
+			rr.AccessControlMaxAge = &v
+		}
+		raw = append(raw, rr)
+	}
+	return raw, true
+}
+
+func execHistory(op string) string {
+	f := strings.Split(op[6:], ";")
+	if len(f) != 7 {
+		return "bad-op"
+	}
+	cs, ok0 := kv(f[0], "c")
+	ps, ok1 := kv(f[1], "p")
+	ms, ok2 := kv(f[2], "m")
+	os_, ok3 := kv(f[3], "o")
+	as, ok4 := kv(f[4], "a")
+	bs, ok5 := kv(f[5], "b")
+	hs, ok6 := kv(f[6], "h")
+	if !(ok0 && ok1 && ok2 && ok3 && ok4 && ok5 && ok6) {
+		return "bad-op"
+	}
+	product, k1 := vh.UnHex(ps)
+	method, k2 := vh.UnHex(ms)
+	origin, k3 := vh.UnHex(os_)
+	acrm, k4 := vh.UnHex(as)
+	acrh, k5 := vh.UnHex(hs)
+	if !(k1 && k2 && k3 && k4 && k5) {
+		return "bad-op"
+	}
+	var confs []mod_cors.VerifConf
+	for _, c := range strings.Split(cs, "~") {
+		vp := strings.Split(c, "@")
+		if len(vp) != 2 {
+			return "bad-op"
+		}
+		ver, ok := vh.UnHex(vp[0])
+		if !ok {
+			return "bad-op"
+		}
+		vc := mod_cors.VerifConf{Version: string(ver), Products: map[string]mod_cors.RuleRawList{}}
+		if vp[1] != "_" {
+			for _, x := range strings.Split(vp[1], "&") {
+				pr := strings.SplitN(x, "=", 2)
+				if len(pr) != 2 {
+					return "bad-op"
+				}
+				pn, ok := vh.UnHex(pr[0])
+				if !ok {
+					return "bad-op"
+				}
+				raw, ok := parseRawRules(pr[1])
+				if !ok {
+					return "bad-op"
+				}
+				vc.Products[string(pn)] = raw
+			}
+		}
+		confs = append(confs, vc)
+	}
+	bf := strings.Split(bs, "|")
+	if len(bf) != 7 {
+		return "bad-op"
+	}
+	backend := make(bfe_http.Header)
+	backend.Set("Server", "backend")
+	for i, k := range hdrKeys {
+		vs, ok := decList(bf[i])
+		if !ok {
+			return "bad-op"
+		}
+		if len(vs) > 0 {
+			backend[k] = vs
+		}
+	}
+	req := new(bfe_basic.Request)
+	req.Session = new(bfe_basic.Session)
+	req.Route.Product = string(product)
+	hreq, err := bfe_http.NewRequest("GET", "http://"+hitHost+"/res", nil)
+	if err != nil {
+		return "err:newrequest"
+	}
+	hreq.Method = string(method)
+	hreq.Header = make(bfe_http.Header)
+	if len(origin) > 0 {
+		hreq.Header["Origin"] = []string{string(origin)}
+	}
+	if len(acrm) > 0 {
+		hreq.Header["Access-Control-Request-Method"] = []string{string(acrm)}
+	}
+	if len(acrh) > 0 {
+		hreq.Header["Access-Control-Request-Headers"] = []string{string(acrh)}
+	}
+	req.HttpRequest = hreq
+	kind, h, _ := mod_cors.VerifRunHistory(confs, req, backend)
+	if h == nil {
+		return "err:handler-" + kind
+	}
+	out := make([]string, 7)
+	for i, k := range hdrKeys {
+		out[i] = encList(h[k])
+	}
+	return kind + ";" + strings.Join(out, "|")
+}
+
 func exec(op string) string {
+	if strings.HasPrefix(op, "corsh ") {
+		return execHistory(op)
+	}
 	if !strings.HasPrefix(op, "cors ") {
 		return "bad-op"
 	}
